@@ -30,6 +30,7 @@ fn main() {
         "parsers" => vh::parser_drive::run(&opts),
         "stream" => vh::stream::run(&opts),
         "roundtrip" => vh::roundtrip::run(&opts),
+        "replay-reader" => vh::replay_reader::run(&opts),
         "renumber" => vh::renumber_drive::run(&opts),
         other => {
             eprintln!("unknown subcommand {other}");
